@@ -12,6 +12,8 @@ def x_obligations(tier):
     T = 170 if q else 600
     o += per_part("C01", "C01-oracle", M, "oracle", tier, timeout=T)
     o += per_part("C01", "C01-colons", M, "colons", tier, timeout=T, only=["", "h/a/", "h/s/q1/v1/"] if q else None, shrink=1)
+    for pre, n in ([("a:", 3), ("a:x:h/", 2), ("a__n:h/a/", 2), (":", 3), ("a:", 1)] if q else [("a:", 4), ("a:x:h/", 3), ("a__n:h/a/", 3), (":", 4), ("p:", 3), ("bogus:", 3), ("a__f:h/a/x/v1/", 2), ("s::h/", 2)]):
+        o.append(Obl(f"C01-colons[{pre!r}+{n}]", M, "colons", env={"VF_PRE": pre, "VF_N": str(n)}, timeout=T, family="C01-colons", bound=f"s = {pre!r}+t, every t (':' allowed) with len<={n}"))
     for pre, n in ([("", 3), ("h/a/x", 2)] if q else [("", 4), ("h/a/x", 3), ("h/", 3), ("h/s/q1/v1/", 2), ("?", 3), ("h/a/x?", 3)]):
         o.append(Obl(f"C01-total[{pre!r}+{n}]", M, "total", env={"VF_N": str(n), "VF_PRE": pre}, timeout=T, family="C01-total", bound=f"s = {pre!r}+t, EVERY str t with len<={n} (with '?' and ':')"))
     # forced types: every type name against a skeleton of its own depth and against shorter / longer ones
